@@ -347,7 +347,15 @@ func runEvCase(c evCase) *evRun {
 				stepFailed = true
 			}
 		}
-		rolledBack := s.Bulk && s.Atomic && (stepFailed || commitFailed)
+		// ground truth from pgsem: an atomic bulk whose transaction never reached a successful COMMIT (e.g. the request
+		// context was cancelled before it: database/sql answers the Commit call itself) left nothing that could own an event
+		stepCommitted := false
+		for _, it := range tr.Items[mark:] {
+			if it.Kind == "commit" {
+				stepCommitted = true
+			}
+		}
+		rolledBack := s.Bulk && s.Atomic && (stepFailed || commitFailed || !stepCommitted)
 		for i, o := range s.Ops {
 			if i >= len(results) {
 				break
